@@ -197,6 +197,24 @@ def run(ck: Check) -> None:
                          f"completed in {mode.upper()} mode although the local namespaces held {max(true_log + atrue)} measured bytes "
                          f"under local_namespace_limit {limit} (sizes after each assignment, refused ones included: {true_log})")
                 add(nest, lim, printed, s, sizes, v, {"async": a, "measured": true_log, "kind": "ns-tolerant"})
+                # the same, with render-time GLOBALS named like the template's variables (a refused assignment must leave no copy of
+                # the shadowed global behind in the local namespace); oracle only: the model has no globals
+                shadow = (printed[0], printed[1], dict(printed[2], **{f"v{i}": "G" * 300 for i in range(4)}))
+                gs, _, gtrue = L.run_impl(nest, lim, False, shadow, want_true=True)
+                ga, _, gatrue = L.run_impl(nest, lim, True, shadow, want_true=True)
+                ck.note_case((nest, lim.key(), "shadowed-globals"), nontrivial=True)
+                ck.count(f"ns.{mode}.shadowed-globals." + ("completed" if gs[0] == "out" else "raised"))
+                gv = None
+                if gs != ga:
+                    gv = (f"c07-{mode}-shadowed-sync-async-differ", f"sync {gs[:2]} but async {ga[:2]}")
+                elif gs[0] == "out" and any(t > limit for t in gtrue + gatrue):
+                    gv = (f"c07-{mode}-namespace-exceeds-limit-shadowed-global",
+                          f"with 300-character globals v0..v3, completed in {mode.upper()} mode although the local namespaces held "
+                          f"{max(gtrue + gatrue)} measured bytes under local_namespace_limit {limit} (after each assignment: {gtrue})")
+                if gv is not None and sum(1 for x in ck.violations if x.signature == gv[0]) < 3:
+                    ck.violation("impl-violation", gv[0], f"{printed[0]!r} partials {printed[1]!r} limits {lim.as_dict()}: {gv[1]}",
+                                 {"main": nest, "limits": lim.as_dict(), "template": printed[0], "partials": printed[1], "sync": gs,
+                                  "async": ga, "measured": gtrue, "kind": "ns-tolerant", "shadow_globals": True})
     g = sw.groups[len(sw.groups) // 2]
     r = g[2][len(g[2]) // 2]
     ck.sample({"template": g[1][0], "partials": g[1][1], "limits": r[0].as_dict(), "observed": r[2][:2], "measured_sizes": r[1]})
@@ -225,6 +243,9 @@ def replay(data) -> int:
     nest = case["main"]
     lim = L.Limits.from_dict(case["limits"])
     printed = L.to_source(nest)
+    if case.get("shadow_globals"):
+        printed = (printed[0], printed[1], dict(printed[2], **{f"v{i}": "G" * 300 for i in range(4)}))
+        print("render data: 300-character globals v0..v3")
     base, _ = L.run_impl(nest, L.Limits(), False, printed)
     s, _, true_log = L.run_impl(nest, lim, False, printed, want_true=True)
     a, _ = L.run_impl(nest, lim, True, printed)
